@@ -946,7 +946,11 @@ func (st *State) applyContract(fct *FuncContract, fn *types.Func, recv *Val, arg
 	// into its footprint is typed against the new counter (it may store references it allocated itself)
 	if !fct.NoAlloc {
 		newAlloc := fc.fresh("alloc", "Int")
-		st.assume(sCmp(">=", newAlloc, st.alloc))
+		if fct.Allocates > 0 {
+			st.assume(sEq(newAlloc, sAdd(st.alloc, sInt(int64(fct.Allocates)))))
+		} else {
+			st.assume(sCmp(">=", newAlloc, st.alloc))
+		}
 		st.alloc = newAlloc
 	}
 	// frame: havoc the modifies footprint
@@ -1116,7 +1120,9 @@ func (st *State) havocAbove(name, sort, alloc string, twoLevel bool) {
 	}
 	oldH := st.heapGet(name, sort)
 	h := st.heapHavoc(name, sort)
-	st.assume(fmt.Sprintf("(forall ((g_a Int)) (! (=> (< g_a %s) (= (select %s g_a) (select %s g_a))) :pattern ((select %s g_a))))", alloc, h, oldH, h))
+	// unchanged below the old counter (existing objects are framed separately) AND at or above the new counter
+	// (cells that are still unallocated after the call cannot have been written)
+	st.assume(fmt.Sprintf("(forall ((g_a Int)) (! (=> (or (< g_a %s) (>= g_a %s)) (= (select %s g_a) (select %s g_a))) :pattern ((select %s g_a))))", alloc, st.alloc, h, oldH, h))
 }
 
 type target struct {
@@ -1279,6 +1285,10 @@ func (st *State) resolveTarget(env *SpecEnv, e *SNode, add func(name, sort strin
 		}
 		if structT == nil {
 			env.fail("%s: unknown type %s", e.Text, tn)
+		}
+		if gh := ghostFieldHeap(structT, fn); gh != "" && e.Text == "anyof" {
+			add(gh, ghostFieldSort(structT, fn), false, target{kind: "fieldset", cond: "true"})
+			return
 		}
 		ft, comps, _ := fieldComps(structT, fn)
 		if ft == nil {
